@@ -10,6 +10,7 @@ EXTENDS IntData, Json, IOUtils
 Trace == ndJsonDeserialize(IOEnv.TRACE)
 
 VARIABLE l
+NoPrefix == <<>>
 tvars == <<vars, l>>
 
 ASSUME TLCSet(42, 0)
